@@ -89,4 +89,11 @@ func init() {
 			"(2) makeRequest classifies the transport error as a context error first and applies the unavailable fallback only to still-uncoded errors; SetError stores the context-classified error and keeps the first one; "+
 			"(3) wrapIfContextError maps exactly Canceled->canceled and DeadlineExceeded->deadline_exceeded and leaves coded errors alone, wrapIfUncoded applies it before unknown, RST CANCEL maps to canceled; (4) handler-returned context errors go through toWire and all client results through wrapIfUncoded.",
 		"all cancellation instants, what net/http returns when a context ends mid-read, whether the handler's context is cancelled by the transport.")
+
+	prop("C06", "Whatever a server sends, the client fails safely with a coded non-OK error",
+		[]string{"code-nonzero", "non200-is-error", "http-code-tables", "header-canonical", "coded-wrapper-exhaustive", "ctx-first-wrapper", "percent-agreement", "no-explicit-panic"},
+		"(1) every code operand of NewError/errorf and every store to Error.code is a non-zero constant, a table function with only non-zero constant returns, or a wire value excluded from zero on its path (and narrowed to 32 bits before the test); JSON-decoded Error objects are repaired before they escape; "+
+			"(2) every non-200 path of a validateResponse returns a non-nil error whose fallback code comes from the protocol's own total HTTP-status table; (3) JSON-decoded trailer keys are canonicalised and direct header indexes use canonical constants, so lookups are case-insensitive; "+
+			"(4) every error-returning method of the client conn wrapper passes through wrapIfUncoded and the transport error handed to SetError is always coded; (5) the percent decoder's guards keep its slice in range for every input and no explicit panic exists.",
+		"absence of all run-time panics (nil dereference in general, HTTPClients returning (nil, nil)), termination, arbitrary bodies beyond the framing guards.")
 }
